@@ -144,11 +144,15 @@ inductive VMsg where
   | other
   deriving DecidableEq, Repr, Inhabited
 
-/-- an `AttributeError` that calls for treat-as-withdraw: `!optional || transitive` on the RECEIVED flags -/
+/-- an `AttributeError` that calls for treat-as-withdraw (as repaired): Optional/Transitive bits that conflict
+    with the attribute type always do; otherwise `!optional || transitive` on the received flags -/
 def errIsTaw (e : Nat × Nat) : Bool :=
-  let optional := e.2 &&& 0x80 ≠ 0
-  let transitive := e.2 &&& 0x40 ≠ 0
-  !optional || transitive
+  let flagsError : Bool := match canonicalFlags e.1 with
+    | some c => flagsConflict e.2 c
+    | none => false
+  let optional : Bool := e.2 &&& 0x80 ≠ 0
+  let transitive : Bool := e.2 &&& 0x40 ≠ 0
+  flagsError || !optional || transitive
 
 def hasCode (attrs : List Attr) (code : Nat) : Bool := attrs.any fun a => a.code == code
 
